@@ -126,7 +126,37 @@ func (t toolsim) Gen(prop, tier string, ts *sim.Tapes) *Case {
 		return t.genOpt(prop, tier, ts)
 	}
 	prog, _ := genHistory(ts, prop, tier, true)
-	return &Case{Prop: prop, Engine: t.kind, Tier: tier, Seed: ts.Seed, Run: ts.Run, Prog: prog, Tapes: map[string][]uint64{}}
+	c := &Case{Prop: prop, Engine: t.kind, Tier: tier, Seed: ts.Seed, Run: ts.Run, Prog: prog, Tapes: map[string][]uint64{}, Params: map[string]int{}}
+	if t.kind == "compactsim" && ts.Get("swarm").Chance(1, 4) {
+		// the source is the history's content laid out by the independent encoder (a valid version-2 file the
+		// current writer would not produce: sparse pages, scattered ids, gaps, paged small buckets)
+		c.Params["foreign"] = 1
+	}
+	return c
+}
+
+// relayForeign replaces the closed file at path by the same content laid out by dec/enc.go.
+func relayForeign(c *Case, path string, e *work.Exec, out *Outcome) bool {
+	lay := sim.NewTape(c.Seed, c.Run, "layout")
+	img, _ := dec.Encode(e.Cur, dec.EncOpts{PageSize: c.Prog.Cfg.PageSize, Txid: uint64(e.LastTxid), PersistFreelist: lay.Chance(2, 3),
+		Scatter: lay.Chance(2, 3), GapData: lay.Chance(1, 3), NeverInline: lay.Chance(1, 5), Choose: func(n int) int { return lay.Intn(n) }})
+	ok := false
+	if im, err := dec.Load(img); err == nil {
+		if wi, w := im.Winner(); w {
+			r := im.Decode(wi)
+			ok = r.Clean() && model.Diff(r.Root, e.Cur) == ""
+		}
+	}
+	if !ok {
+		out.HarnessErr = "encoder output rejected by the decoder"
+		return false
+	}
+	if err := os.WriteFile(path, img, 0600); err != nil {
+		out.HarnessErr = err.Error()
+		return false
+	}
+	out.probe("foreign-layout-source", 1)
+	return true
 }
 
 func (t toolsim) Run(c *Case, dir string) *Outcome {
@@ -159,6 +189,9 @@ func (t toolsim) runCompact(c *Case, dir string, out *Outcome) {
 	defer os.Remove(dst)
 	e, ok := buildFile(c, src, out)
 	if !ok {
+		return
+	}
+	if c.Params["foreign"] == 1 && !relayForeign(c, src, e, out) {
 		return
 	}
 	fail := func(class, f string, a ...any) {
@@ -615,7 +648,7 @@ func (t toolsim) rebuiltEqualsPersisted(path, dir string, cfg work.Config, fail 
 func init() {
 	register(&Info{Prop: "C15", Engine: toolsim{"compactsim"}, Level: "exploration", QuickS: 45, ThoroughS: 600,
 		RealStub: "real: bolt.Compact and `bbolt compact` (cmd/bbolt/command, in-process) on real files; no fault or schedule dimension (stated plainly): the simulator contributes the source population (end states of seeded histories)",
-		Rule:     "per seeded source (deep nesting, inline and paged buckets, empty buckets, empty and multi-page values, non-zero sequences, free pages) evaluations = one Compact per transaction-size limit in {0,1,2,7,13,97,4 tape-chosen in 20..5000,65536,2^40}, alternating library and CLI; the destination must decode cleanly and dump equal to the source and the model, pass Tx.Check; the source's SHA-256 is unchanged. distinct = distinct (source content, limit)",
+		Rule:     "in a quarter of the runs the source file is the history's content re-laid out by the independent encoder dec/enc.go (a valid version-2 file the current writer would not produce); per seeded source (deep nesting, inline and paged buckets, empty buckets, empty and multi-page values, non-zero sequences, free pages) evaluations = one Compact per transaction-size limit in {0,1,2,7,13,97,4 tape-chosen in 20..5000,65536,2^40}, alternating library and CLI; the destination must decode cleanly and dump equal to the source and the model, pass Tx.Check; the source's SHA-256 is unchanged. distinct = distinct (source content, limit)",
 		Assume:   []string{"plain seeded model-based testing of a deterministic function; listed as such"}})
 	register(&Info{Prop: "C20", Engine: toolsim{"repairsim"}, Level: "exploration", QuickS: 45, ThoroughS: 600,
 		RealStub: "real: `bbolt surgery freelist abandon|rebuild` and `surgery revert-meta-page` from cmd/bbolt/command run in-process on real files; referee: independent decoder + model version table",
